@@ -233,9 +233,21 @@ pub struct DB {
 impl DB {
     /// Open a database with the specified options.
     pub fn open(options: DbOptions) -> RainDBResult<DB> {
+        // Do not format the options as a whole: that would walk the entire contents of the block
+        // cache, which may be shared with other databases and already be filled.
         log::info!(
-            "Initializing raindb with the following options {:#?}",
-            options
+            "Initializing raindb with the following options: db_path: {:?}, max_memtable_size: \
+            {}, max_file_size: {}, max_block_size: {}, filesystem_provider: {:?}, filter_policy: \
+            {:?}, create_if_missing: {}, error_if_exists: {}, reuse_log_files: {}",
+            options.db_path,
+            options.max_memtable_size,
+            options.max_file_size,
+            options.max_block_size,
+            options.filesystem_provider,
+            options.filter_policy,
+            options.create_if_missing,
+            options.error_if_exists,
+            options.reuse_log_files
         );
 
         let fs = options.filesystem_provider();
